@@ -8,14 +8,16 @@
 (***************************************************************************)
 EXTENDS ISStrLit, Json, IOUtils, SequencesExt
 
-CONSTANTS N, Mode, Stride, Offset
+CONSTANTS N, Mode, Stride, Offset,
+          Alphabet      \* the character classes of this run (all of them, or few classes with longer strings)
 VARIABLES pre, step
 vars == <<pre, step>>
-Init == pre \in Str(2) /\ step = 0
+StrA(n) == UNION {[1..m -> Alphabet] : m \in 0..n}
+Init == pre \in StrA(2) /\ step = 0
 Next == step = 0 /\ step' = 1 /\ UNCHANGED pre
 Spec == Init /\ [][Next]_vars
 
-Ext == IF Len(pre) < 2 THEN {pre} ELSE {pre \o t : t \in Str(N - 2)}
+Ext == IF Len(pre) < 2 THEN {pre} ELSE {pre \o t : t \in StrA(N - 2)}
 RoundTrip == step = 1 => \A s \in Ext : LET l == Encode(s) IN WellFormed(l) /\ Lex(l.body) = s
 \* the triple-quoted form is used exactly for values that span several lines
 TripleIffMultiline == step = 1 => \A s \in Ext : Encode(s).triple <=> NeedsTriple(s)
@@ -28,7 +30,10 @@ SrcNum(c) == CASE c = "NL" -> 11 [] c = "n" -> 12 [] c = "r" -> 13 [] c = "t" ->
 PreId == LET F[k \in 0..Len(pre)] == IF k = 0 THEN Len(pre) ELSE F[k-1] * 12 + ClassNum(pre[k]) + 1 IN F[Len(pre)]
 Emit == (Mode = "emit" /\ step = 1) =>
   LET es == SetToSeq(Ext)
-      sel == {n \in 1..Len(es) : (n + PreId) % Stride = Offset % Stride}
+      \* a stride sample, plus every string in which both kinds of triple quotes occur (the rare region where the
+      \* extra quote is escaped)
+      sel == {n \in 1..Len(es) : \/ (n + PreId) % Stride = Offset % Stride
+                                  \/ (HasSub(es[n], Triple("sq")) /\ HasSub(es[n], Triple("dq")))}
       one(s) == LET l == Encode(s) IN
                 [s |-> [j \in DOMAIN s |-> ClassNum(s[j])], triple |-> l.triple, q |-> ClassNum(l.q),
                  body |-> [j \in DOMAIN l.body |-> SrcNum(l.body[j])]]
